@@ -45,10 +45,10 @@ def gen(rng, tier):
     reps = {"quick": 2, "thorough": 20, "search": 8}[tier]
     for _ in range(reps):
         for ops, tag in g.directed_goaway(rng):
-            yield Case("s_goaway", ops, tag)
+            yield Case("s_goaway", ops + ["end"], tag)
     for _ in range(max(1, reps // 2)):
         for ops, tag in g.directed_hold(rng):
-            yield Case("s_goaway", ops, tag)
+            yield Case("s_goaway", ops + ["end"], tag)
     for i in range(n):
         b = g.Builder(rng, mcs=(rng.choice([1, 2, 3]) if rng.random() < 0.2 else None), allow_hold=rng.random() < 0.4)
         for _ in range(rng.randrange(0, 5)):
@@ -56,9 +56,9 @@ def gen(rng, tier):
         b.random_tail(rng.randrange(0, 8))
         b.goaway_op()
         b.random_tail(rng.randrange(2, 25))
-        yield Case("s_goaway", b.ops, "rand-goaway-%d" % i)
+        yield Case("s_goaway", b.ops + ["end"], "rand-goaway-%d" % i)
     for i in range(n // 2):
-        yield Case("s_goaway", g.random_case(rng, rng.randrange(5, 40)), "rand-%d" % i)
+        yield Case("s_goaway", g.random_case(rng, rng.randrange(5, 40)) + ["end"], "rand-%d" % i)
 
 
 def nontrivial(case, impl_lines):
